@@ -525,7 +525,10 @@ class MediaSegmentInfo(SegmentInfoBase):
     decorators = [uses_media_file, uses_stream]
 
     def get(self, spk: int, mfid: int, segnum: int) -> flask.Response:
-        frag = current_media_file.representation.segments[int(segnum)]
+        representation = current_media_file.representation
+        if representation is None or int(segnum) >= len(representation.segments):
+            return flask.make_response('Segment not found', 404)
+        frag = representation.segments[int(segnum)]
         options = mp4.Options(lazy_load=False)
         if current_media_file.representation.encrypted:
             options.iv_size = current_media_file.representation.iv_size
